@@ -69,7 +69,7 @@ REUSE = {"N2": "N5", "N5": "N7", "N7": "N2", "N10": "N5"}
 
 def space(tier, seed):
     items = list(A.scenarios(tier, NETS, unint_values=(False,)))
-    extra = list(A.inc_scenarios(tier)) + list(A.period_scenarios(tier)) + list(A.three_scenarios(tier)) + list(A.edit_scenarios(tier, (False,)))
+    extra = [x for x in A.extra_scenarios(tier) if x["net"] == "N16"] + list(A.inc_scenarios(tier)) + list(A.period_scenarios(tier)) + list(A.three_scenarios(tier)) + list(A.edit_scenarios(tier, (False,)))
     seen = set()
     for scn in list(items):
         key = (scn["net"], repr(scn["sessions"]))
